@@ -8,6 +8,8 @@ Everything the C16 theorems lean on is read from the AST here:
   * InprogressTracker     `self._gauge.inc()` / `self._gauge.dec()` as unconditional statements (or under which test)
   * ExceptionCounter      the test `isinstance(value, self._exception)`, what `__exit__` returns on either path
   * metrics.py            callback names given to Timer, default class of count_exceptions
+  * the three __call__s   name of the first parameter of `wrapped(func, *args, **kwargs)` and whether it is positional-only
+                          (a forwarded keyword of that name collides with it)
   * decorator.py          reserved names, lambda rename, `%s=None` / `%s=%s` kw-only templates, the body template
 """
 import ast
@@ -34,7 +36,7 @@ DEFAULTS = dict(
     gaugeTimeCallback='', summaryTimeCallback='', histogramTimeCallback='', countExcDefault='',
     countExcChecksObservable=False, trackInprogressChecksObservable=False, timeChecksObservable=False,
     reservedNames=[], lambdaName='', lambdaRename='', kwonlySigFmt='', kwonlyShortFmt='', bodyTemplate='',
-    defTemplate='', sigJoin='', posonlyMarkerEmitted=False,
+    defTemplate='', sigJoin='', posonlyMarkerEmitted=False, callerFuncParam='', callerFuncPosOnly=False,
 )
 
 
@@ -69,6 +71,8 @@ def _emit(v, fails):
     for k in ('lambdaName', 'lambdaRename', 'kwonlySigFmt', 'kwonlyShortFmt', 'bodyTemplate', 'defTemplate', 'sigJoin'):
         out += 'def %s : List Char := %s\n' % (k, chars(v[k]))
     out += 'def posonlyMarkerEmitted : Bool := %s\n' % b(v['posonlyMarkerEmitted'])
+    out += 'def callerFuncParam : List Char := %s\n' % chars(v['callerFuncParam'])
+    out += 'def callerFuncPosOnly : Bool := %s\n' % b(v['callerFuncPosOnly'])
     return out + footer(TARGET)
 
 
@@ -159,24 +163,35 @@ def _truthy_returns(f, site):
 
 
 def _with_item(f, site):
-    """`def __call__(self, f): def wrapped(func, *args, **kwargs): with X: return func(*args, **kwargs)` -> source of X"""
+    """`def __call__(self, f): def wrapped(func, *args, **kwargs): with X: return func(*args, **kwargs)`
+    -> (source of X, name of the first parameter of the inner function, is it positional-only)"""
     inner = [n for n in f.body if isinstance(n, ast.FunctionDef)]
     if len(inner) != 1: raise Fail('%s: one inner function expected' % site)
     w = inner[0]
     a = w.args
-    if not (len(a.args) == 1 and a.vararg is not None and a.kwarg is not None and not a.kwonlyargs):
+    first = a.posonlyargs + a.args
+    if not (len(first) == 1 and a.vararg is not None and a.kwarg is not None and not a.kwonlyargs):
         raise Fail('%s: inner signature is not (func, *args, **kwargs)' % site)
     body = [s for s in w.body if not (isinstance(s, ast.Expr) and isinstance(s.value, ast.Constant))]
     if len(body) != 1 or not isinstance(body[0], ast.With) or len(body[0].items) != 1:
         raise Fail('%s: body is not a single `with`' % site)
     wi = body[0]
-    want = 'return %s(*%s, **%s)' % (a.args[0].arg, a.vararg.arg, a.kwarg.arg)
+    want = 'return %s(*%s, **%s)' % (first[0].arg, a.vararg.arg, a.kwarg.arg)
     if len(wi.body) != 1 or ast.unparse(wi.body[0]) != want:
         raise Fail('%s: with-body is not `%s`' % (site, want))
     ret = [s for s in f.body if isinstance(s, ast.Return)]
     if len(ret) != 1 or ast.unparse(ret[0]) != 'return decorate(%s, %s)' % (f.args.args[1].arg, w.name):
         raise Fail('%s: `return decorate(f, wrapped)` expected' % site)
-    return ast.unparse(wi.items[0].context_expr)
+    return ast.unparse(wi.items[0].context_expr), first[0].arg, len(a.posonlyargs) == 1
+
+
+def _caller(v, name, posonly, site):
+    """all three callers must agree on the name of their first parameter"""
+    if v['callerFuncParam'] not in ('', name):
+        raise Fail('%s: first parameter %r, other callers use %r' % (site, name, v['callerFuncParam']))
+    v['callerFuncParam'] = name
+    v['_posonly'].append(posonly)
+    v['callerFuncPosOnly'] = len(v['_posonly']) == 3 and all(v['_posonly'])
 
 
 def _num(node):
@@ -222,7 +237,8 @@ def timer(tree, v):
     nt = find_func(tree, '_new_timer', 'Timer')
     v['newTimerIsNew'] = (len(nt.body) == 1 and ast.unparse(nt.body[0]) == 'return self.__class__(self._metric, self._callback_name)')
     if not v['newTimerIsNew']: raise Fail('_new_timer does not construct a new Timer')
-    item = _with_item(find_func(tree, '__call__', 'Timer'), 'Timer.__call__')
+    item, fname, fpo = _with_item(find_func(tree, '__call__', 'Timer'), 'Timer.__call__')
+    _caller(v, fname, fpo, 'Timer.__call__')
     if item == 'self._new_timer()': v['timerCallFresh'] = True
     elif item == 'self': v['timerCallFresh'] = False
     else: raise Fail('Timer.__call__ enters %s' % item)
@@ -235,7 +251,8 @@ def inprogress(tree, v):
     v['inprogressDecWhen'] = _when(ex, _is_call_stmt('self._gauge.dec()'), 'InprogressTracker.__exit__ dec', _exc_arg_names(ex))
     top, nested = _truthy_returns(ex, 'InprogressTracker.__exit__')
     v['inprogressExitSuppresses'] = top or any(t for _, _, t in nested)
-    item = _with_item(find_func(tree, '__call__', 'InprogressTracker'), 'InprogressTracker.__call__')
+    item, fname, fpo = _with_item(find_func(tree, '__call__', 'InprogressTracker'), 'InprogressTracker.__call__')
+    _caller(v, fname, fpo, 'InprogressTracker.__call__')
     v['inprogressCallWithSelf'] = item == 'self'
     if item != 'self': raise Fail('InprogressTracker.__call__ enters %s' % item)
 
@@ -274,7 +291,8 @@ def exccounter(tree, v):
     init = find_func(tree, '__init__', 'ExceptionCounter')
     if not any(ast.unparse(s) == 'self._exception = exception' for s in init.body):
         raise Fail('self._exception = exception not found')
-    item = _with_item(find_func(tree, '__call__', 'ExceptionCounter'), 'ExceptionCounter.__call__')
+    item, fname, fpo = _with_item(find_func(tree, '__call__', 'ExceptionCounter'), 'ExceptionCounter.__call__')
+    _caller(v, fname, fpo, 'ExceptionCounter.__call__')
     v['excCallWithSelf'] = item == 'self'
     if item != 'self': raise Fail('ExceptionCounter.__call__ enters %s' % item)
 
@@ -371,6 +389,7 @@ def decorator_site(dtree, v):
 
 def generate(repo):
     v = dict(DEFAULTS)
+    v['_posonly'] = []
     fails = []
     trees = {}
     for rel in SOURCES:
